@@ -28,17 +28,13 @@ TRUSTED = [
     "re-enacted over memfs) vs Model/Gitignore on every case",
     "C-git: Spec/GitIgnore.git_ignored vs `git check-ignore --no-index -v -n -z --stdin` (git 2.39.5) on the cases of every run "
     "(spec_mismatches in the evidence must be 0)",
-<<<<<<< HEAD
     "the direct oracle: for every directory and every file of the case's tree, the implementation's verdict through the status walk "
     "(RootPatterns, NewScope, Descend with DirPatterns, Scope.Match) and through the deprecated flat API (NewMatcher(ReadPatterns).Match, "
     "not modelled) vs the same git invocation in a scratch repository that holds the ignore files and the paths (directories exist there "
     "and are queried without a trailing slash: with one, check-ignore takes the empty text after it as the basename)",
-=======
-    "the direct oracle: the implementation's verdict vs the same git invocation in a scratch repository that holds the ignore files and the paths",
     "theorem instances: on every query whose guards (wide_case, path_ok, no_reincluded_ancestor, evaluated in Coq: Proofs/C49Frag.c49_guard) hold, "
     "the implementation must agree with the git binary (guard_diffs in the evidence must be 0; a difference there is reported as a violation, never as a finding); "
     "for every dowild pair whose pattern is in the glob fragment the implementation must agree with the declarative gmatch (Spec/GitIgnore.c49_gmatch)",
->>>>>>> d06
 ]
 ASSUMPTIONS = ["git 2.39.5 at /usr/bin/git is the reference (its literal-prefix handling of `foo**/bar` differs from git >= 2.52)",
                "patterns, paths and ignore files are NUL-free; path components are non-empty and contain no slash",
